@@ -40,12 +40,21 @@ KEYS = ["cata/p1", "cata/p2", "catb/p1"]
 GLOB_SRC = {3: "cata/*", 5: "*/p1", 4: "catb/*"}
 PKG_IDS = [(0, 1), (0, 2), (1, 1), (1, 2), (2, 1), (2, 2)]
 PLAIN = ["a", "b", "c", "d", "e"]
-FLAG_ID = {"a": 10, "b": 11, "c": 12, "d": 13, "e": 14, "foo_a": 100, "foo_b": 101, "bar_a": 200,
-           "*": 0, "foo_*": 1, "bar_*": 2}
-UNIVERSE = ["a", "b", "c", "d", "e", "foo_a", "foo_b", "bar_a"]
-GEN_FLAGS = ["a", "b", "c", "d", "foo_a", "foo_b", "bar_a"]
-WILD = ["*", "foo_*", "bar_*"]
-PRES = [(), ("a", "foo_a", "e"), ("b", "c", "foo_b", "bar_a")]
+# names: USE_EXPAND names and values may themselves contain underscores (python_targets_python3_12,
+# cpu_flags_x86_sse4_1): prefix 3 is "py_t", value "x_1".  id = base id for plain flags, 100*P + (base-10)
+# for value `base` of prefix P.
+BASE_ID = {"a": 10, "b": 11, "c": 12, "d": 13, "e": 14, "x_1": 15}
+PFX_NAME = {1: "foo", 2: "bar", 3: "py_t"}
+FLAG_ID = dict(BASE_ID)
+for _p, _n in PFX_NAME.items():
+    FLAG_ID[_n + "_*"] = _p
+    for _b, _i in BASE_ID.items():
+        FLAG_ID["%s_%s" % (_n, _b)] = 100 * _p + _i - 10
+FLAG_ID["*"] = 0
+UNIVERSE = ["a", "b", "c", "d", "e", "x_1", "foo_a", "foo_b", "foo_x_1", "bar_a", "py_t_a", "py_t_x_1"]
+GEN_FLAGS = ["a", "b", "c", "d", "foo_a", "foo_b", "foo_x_1", "bar_a", "py_t_a", "py_t_x_1"]
+WILD = ["*", "foo_*", "bar_*", "py_t_*"]
+PRES = [(), ("a", "foo_a", "foo_x_1", "e"), ("b", "c", "foo_b", "bar_a", "py_t_a", "py_t_x_1")]
 
 
 # ----------------------------------------------------------------------------- programs
@@ -491,6 +500,11 @@ def main(chk: Check):
         ("merge", P("freeze", "clone", A_((), ("a",))), P(K_(("V", 2, 2), (), ("b",)))),
         # (c) */* -a ; =cata/p1-1 a ; =cata/p1-1 -a ; collapsed by optimize
         P(A_(("a",), ()), K_(("V", 0, 1), (), ("a",)), K_(("V", 0, 1), ("a",), ()), "freeze", "opt"),
+        # round 4: USE_EXPAND values / names containing underscores must be cleared by -PREFIX_* (correct on the
+        # unchanged tree: no collapse between the entries; also via pre_defaults of a single entry)
+        P(K_(("S", 0), (), ("py_t_x_1", "py_t_a", "foo_x_1")), K_(("V", 0, 1), ("py_t_*",), ("a",))),
+        P(K_(("S", 1), (), ("foo_x_1", "foo_a")), "freeze", "clone", K_(("S", 1), ("foo_*",), ("foo_b",))),
+        P(A_(("foo_*", "py_t_*"), ("b",))),
         # (d) optimize on an unfrozen dict, then add to the same key
         P(K_(("S", 0), (), ("a",)), "opt", K_(("S", 0), (), ("b",))),
     ]
@@ -724,17 +738,17 @@ def main(chk: Check):
 
     # ------------------------------------------------------------------ split stream (package.use lines)
     # abstract tokens: ('pos', b) ('neg', b) ('star',) ('hdr', p, spelling) ('bad', text); b in a/b/c
-    PFX = {1: "foo", 2: "bar"}
+    PFX = PFX_NAME
     raw_pkg_use = domain_mod.domain.__dict__["pkg_use"].function.args[0]   # the function under load_property
 
     def gen_line(rng):
         def val():
-            b = rng.choice(["a", "b", "c"])
+            b = rng.choice(["a", "b", "c", "x_1"])
             return ("neg", b) if rng.random() < 0.35 else ("pos", b)
 
         def hdr():
-            p = rng.choice([1, 2])
-            return ("hdr", p, ["", "FOO:", "BAR:"][p] if rng.random() < 0.8 else ["", "foo:", "Bar:"][p])
+            p = rng.choice([1, 2, 3])
+            return ("hdr", p, ["", "FOO:", "BAR:", "PY_T:"][p] if rng.random() < 0.8 else ["", "foo:", "Bar:", "Py_t:"][p])
         out = []
         if rng.random() < 0.7:   # structured: plain part (flags, maybe -* in the middle), then USE_EXPAND sections
             for _ in range(rng.choice([0, 1, 2, 3, 4])):
@@ -828,7 +842,7 @@ def main(chk: Check):
             return (tuple(out[0][1]), tuple(conv[0][1][0]), tuple(conv[0][1][1]))
         return impl_call(f)
 
-    LINE_PROBES = [set(), {"a", "b", "foo_a", "foo_b", "bar_a"}, {"c", "foo_a"}]
+    LINE_PROBES = [set(), {"a", "b", "foo_a", "foo_b", "foo_x_1", "bar_a", "py_t_x_1"}, {"c", "foo_a", "py_t_x_1"}]
 
     def line_failure(at, res):
         """(B) for one line directly on the implementation -> None or a description"""
@@ -863,17 +877,13 @@ def main(chk: Check):
         return None
 
     def enc_name(n):
-        if n in FLAG_ID:
-            return FLAG_ID[n]
-        if n[:4] in ("foo_", "bar_") and n[4:] in ("a", "b", "c"):
-            return (100 if n[:4] == "foo_" else 200) + FLAG_ID[n[4:]] - 10
-        return 9999
+        return FLAG_ID.get(n, 9999)
 
     def enc_out(t):
         if t == "-*":
             return 2000
-        if t in ("-foo_*", "-bar_*"):
-            return 3001 if t == "-foo_*" else 3002
+        if t.startswith("-") and t.endswith("_*"):
+            return 3000 + FLAG_ID.get(t[1:], 999)
         return 1000 + enc_name(t[1:]) if t.startswith("-") else enc_name(t)
 
     def canon_line(res):
@@ -884,6 +894,7 @@ def main(chk: Check):
                                            vz([enc_name(n) for n in pos]).term))
 
     line_witnesses = [[("pos", "a"), ("neg", "a")],                                         # class (e)
+                      [("hdr", 3, "PY_T:"), ("pos", "x_1"), ("hdr", 1, "FOO:"), ("pos", "x_1"), ("star",), ("pos", "a")],
                       [("pos", "a"), ("pos", "b"), ("star",), ("pos", "c"), ("hdr", 1, "FOO:"), ("pos", "a")]]
     split_cases, split_meta, line_unclassified, line_fail_idx, n_line_conflict = [], [], [], set(), 0
     for n in range(budget(300, 1000, 4000)):
